@@ -7,13 +7,17 @@ python3 - <<'PY'
 import importlib.machinery, importlib.util, sys
 loader = importlib.machinery.SourceFileLoader("check", "./check")
 spec = importlib.util.spec_from_loader("check", loader); m = importlib.util.module_from_spec(spec); loader.exec_module(m)
-ok, msg = m.regenerate(); print(msg)
-m.gen_gomod(m.HARNESS)
+import os
+for d in sorted(os.listdir("tools/extract")):
+    if d.startswith("c") and os.path.isdir("tools/extract/" + d):
+        print(d, m.regenerate(d.upper())[1].splitlines()[0])
 PY
-(cd lean && lake build kgdriver KG.Audit 2>&1 | tail -3)
+(cd lean && lake build KG.Audit 2>&1 | tail -1)
 for f in lean/KG/Props/C*.lean; do
   mod=KG.Props.$(basename $f .lean)
   (cd lean && lake build $mod 2>&1 | tail -1 | sed "s/^/$mod: /")
+  id=$(basename $f .lean | cut -c1-3 | tr 'C' 'c')
+  (cd lean && lake build kgd_$id 2>&1 | tail -1 | sed "s/^/kgd_$id: /")
 done
 # warm the Go build cache: build every harness once (the checks rebuild them against the current tree anyway)
 for d in harness/cmd/*/; do
